@@ -46,7 +46,7 @@ BUILTINS = {
 MUTATING_METHODS = {
     "append", "extend", "insert", "remove", "pop", "clear", "sort", "reverse",
     "update", "setdefault", "add", "discard", "popitem", "fill", "resize",
-    "put", "itemset", "setflags", "partition", "byteswap", "sort_index",
+    "put", "itemset", "setflags", "sort_index",
 }
 
 
@@ -580,6 +580,19 @@ class Interp:
 
     def st_For(self, s, frame, live):
         it = self.eval(s.iter, frame, live)
+        itu = self.unname(it)
+        if itu.op in ("tuple", "list") and 0 < len(itu.args) <= 8 and \
+                all(self._is_literal(x) for x in itu.args) and \
+                not s.orelse and not any(
+                    isinstance(n, (ast.Break, ast.Continue))
+                    for st in s.body for n in ast.walk(st)):
+            # small literal iteration space: unroll (exact)
+            for x in itu.args:
+                if tm.is_const(live, False):
+                    break
+                self.assign(s.target, x, frame, live, s)
+                live = self.exec_block(s.body, frame, live)
+            return live
         lid = self.new_loop(s)
         names = self._assigned_names(s.body)
         tnames = self._assigned_names([ast.Expr(value=ast.Constant(0))])  # []
@@ -1329,6 +1342,21 @@ class Interp:
                                                     str):
             return self.get_attr(args[0], tm.const_val(args[1]), frame, live,
                                  node)
+        if name == "builtins.setattr" and len(args) == 3 and \
+                tm.is_const(args[1]) and isinstance(tm.const_val(args[1]),
+                                                    str):
+            self.emit("setattr", node, live, frame, base=args[0],
+                      name=tm.const_val(args[1]), value=args[2])
+            self._store_attr(args[0], tm.const_val(args[1]), args[2], live)
+            return NONE
+        if name == "builtins.delattr" and len(args) == 2 and \
+                tm.is_const(args[1]) and isinstance(tm.const_val(args[1]),
+                                                    str):
+            self.emit("delattr", node, live, frame, base=args[0],
+                      name=tm.const_val(args[1]))
+            self._store_attr(args[0], tm.const_val(args[1]), T("deleted"),
+                             live)
+            return NONE
         if name in ("builtins.tuple", "builtins.list") and len(args) == 1:
             au = self.unname(args[0])
             if au.op in ("tuple", "list"):
